@@ -64,14 +64,14 @@ func (t *tracer) log(ev string, owner interface{}, a, b int64) {
 }
 
 type traceFile struct {
-	ScriptID int        `json:"script_id"`
-	File     string     `json:"file"`
-	Conc     int        `json:"conc"`
-	Script   [][]int    `json:"script"`
-	Client   [][]any    `json:"client"`  // [event, a, b, owner]
-	Manager  [][]any    `json:"manager"`
-	Workers  [][][]any  `json:"workers"`
-	Problem  string     `json:"problem,omitempty"`
+	ScriptID int       `json:"script_id"`
+	File     string    `json:"file"`
+	Conc     int       `json:"conc"`
+	Script   [][]int   `json:"script"`
+	Client   [][]any   `json:"client"` // [event, a, b, owner]
+	Manager  [][]any   `json:"manager"`
+	Workers  [][][]any `json:"workers"`
+	Problem  string    `json:"problem,omitempty"`
 }
 
 // end writes the trace of the script that just ran (only complete runs are
